@@ -349,3 +349,29 @@ func vt_C17_arc_midpoint() {
 	vfAssert(vfAnd(near(up[1].X, dn[1].X), near(up[1].Y, -dn[1].Y)), "the sign of the radius mirrors the arc about the chord")
 	vfAssert(up[1].Y*dn[1].Y < 0, "the two signs put the arc on opposite sides of the chord")
 }
+
+// Arc segment: for every radius from the exact semicircle (|r| = half the chord)
+// upwards, both signs, the segment a -> b is replaced by a, facets-1 new points, b
+// with the endpoints unchanged. (Where the new points lie is the thorough
+// harness vt_C17_arc_midpoint.) Bound: horizontal chord.
+func vc_C17_arc_count() {
+	facets := []int{1, 2, 3, 5}[vfCase("facets", 4)]
+	a := vfPoint2("a")
+	L := vfPosParam("chord", 50)
+	vfAssume(L >= 0.01)
+	b := v2.Vec{X: a.X + L, Y: a.Y}
+	r := vfPosParam("r", 100)
+	vfAssume(2*r >= L)
+	if vfCase("sign", 2) == 1 {
+		r = -r
+	}
+	p := NewPolygon()
+	p.AddV2(a)
+	p.AddV2(b).Arc(r, facets)
+	out := p.Vertices()
+	vfReach("arc count")
+	vfAssert(len(out) == facets+1, "an arc of n facets replaces the segment by its two endpoints and n-1 points between them")
+	if len(out) == facets+1 {
+		vfAssert(vfAnd(vfAnd(out[0].X == a.X, out[0].Y == a.Y), vfAnd(out[facets].X == b.X, out[facets].Y == b.Y)), "the arc's endpoints are the segment's endpoints")
+	}
+}
